@@ -77,4 +77,21 @@ def framingOk (c : Cfg) (migs : List Mig) (out : List Tok) : Bool :=
   else
     noMarkers out
 
+/-! ## balanced brackets: the begin / commit markers alone -/
+
+/-- the subsequence of begin / commit markers of a script -/
+def markers (l : List Tok) : List Tok := l.filter isMarker
+
+/-- `k` blocks: `begin commit begin commit …` -/
+def pairs : Nat → List Tok
+  | 0 => []
+  | k + 1 => Tok.begin :: Tok.commit :: pairs k
+
+def countCommit (l : List Tok) : Nat := (l.filter (· == Tok.commit)).length
+
+/-- every commit marker is preceded by its own begin marker and blocks never nest -/
+def balanced (l : List Tok) : Prop := ∃ k, markers l = pairs k
+
+def balancedB (l : List Tok) : Bool := markers l == pairs (countBegin l)
+
 end Spec.Txn
